@@ -77,9 +77,15 @@ def large_sets(ctx, d, rng):
           # an anti-chain followed by its dominators in the last rows
           'dominators_last': [[i % 8, 7 - i % 8] + [0] * (D - 2) for i in range(n - 3)] + [[8, 8] + [1] * (D - 2)] * 3,
           'ascending_chain': [[i] * D for i in range(n)],
+          # a saturated first metric: most points tie at its maximum, the value just below is tied among several
+          'saturated_first_metric': [[7] + [rng.randrange(0, 8) for _ in range(D - 1)] for _ in range((n * 3) // 5)]
+                                    + [[6] + [rng.randrange(0, 8) for _ in range(D - 1)] for _ in range(n - (n * 3) // 5)],
+          # nearly identical points: the second of each pair dominates the first by a relative 1e-7 in every metric
+          # (integers for TLC; the routines get them divided by 1e7: 1.0 and 1.0000001, 2.0 and 2.0000002, ...)
+          'near_ties': [v for i in range(n // 2) for v in ([10000000 * (1 + i % 9)] * D, [10000001 * (1 + i % 9)] * D)] + ([[5000000] * D] if n % 2 else []),
       }
       for shape, pts in shapes.items():
-        P = np.asarray(pts, dtype=np.float64)
+        P = np.asarray(pts, dtype=np.float64) / (1e7 if shape == 'near_ties' else 1.0)
         for rname, fn in routines.items():
           if rname.startswith('Fast') and n > 101 and not ctx.thorough:
             continue
